@@ -27,7 +27,32 @@ for (const sys of systems) {
   for (const k of Object.keys(sys.defs)) named[k] = build(sys.defs[k]);
   const p = rt.buildParserFromRuntype(build(sys.root), 'T', false);
   let r;
-  try { r = { name: sys.name, hash: p.hash(), hash256: p.hash256() }; } catch (e) { r = { name: sys.name, error: String(e && e.stack || e).slice(0, 300) }; }
+  try { r = { name: sys.name, hash: p.hash(), hash256: p.hash256(), describe: p.describe() }; } catch (e) { r = { name: sys.name, error: String(e && e.stack || e).slice(0, 300) }; }
+  // late binding: the same system, but the parser exists (and has been asked) before the named types get their real definitions
+  if (!r.error && Object.keys(sys.defs).length) {
+    try {
+      const named2 = {};
+      class LateRef extends rt.BaseRefRuntype { getNamedRuntypes() { return named2; } }
+      // placeholders first
+      for (const k of Object.keys(sys.defs)) named2[k] = new rt.AnyRuntype(undefined);
+      const buildL = (s) => {
+        switch (s.t) {
+          case 'ref': return new LateRef(undefined, s.name);
+          case 'array': return new rt.ArrayRuntype(undefined, buildL(s.x));
+          case 'tuple': return new rt.TupleRuntype(undefined, s.prefix.map(buildL), s.rest ? buildL(s.rest) : null);
+          case 'optional': return new rt.OptionalFieldRuntype(buildL(s.x));
+          case 'anyof': return new rt.AnyOfRuntype(undefined, s.xs.map(buildL));
+          case 'allof': return new rt.AllOfRuntype(undefined, s.xs.map(buildL));
+          case 'object': { const pp = {}; for (const k of Object.keys(s.props)) pp[k] = buildL(s.props[k]); return new rt.ObjectRuntype(undefined, pp, (s.index || []).map((i) => ({ key: buildL(i.key), value: buildL(i.value) }))); }
+          default: return build(s);
+        }
+      };
+      const pl = rt.buildParserFromRuntype(buildL(sys.root), 'T', false);
+      pl.hash(); pl.hash256(); pl.describe();
+      for (const k of Object.keys(sys.defs)) named2[k] = buildL(sys.defs[k]);
+      r.late = { hash: pl.hash(), hash256: pl.hash256(), describe: pl.describe() };
+    } catch (e) { r.late_error = String(e && e.stack || e).slice(0, 300); }
+  }
   out.push(r);
 }
 process.stdout.write(JSON.stringify(out));
